@@ -21,7 +21,7 @@ PROPS = {
         ]),
     'C14': dict(
         units=['expert', 'nodepred'], level='proof',
-        replays=['c14_invalid_dep_removed.rs', 'c14_callback_on_new_dependency.rs'],
+        replays=['c14_invalid_dep_removed.rs', 'c14_callback_on_new_dependency.rs', 'c14_callback_on_valueless_child.rs'],
         uncovered=[
             'expert_add_dependency / expert_remove_dependency / expert_swap_children_except_in_kind in node.rs (three nodes\' RefCells at once)',
             'double-borrow panics on duplicate children (RefCell borrow flags are erased by rule R5)',
@@ -38,7 +38,7 @@ PROPS = {
         ]),
     'C09': dict(
         units=['handlers', 'observer'], level='proof',
-        replays=['c09_spurious_changed.rs'],
+        replays=['c09_spurious_changed.rs', 'c09_double_unsubscribe.rs'],
         uncovered=[
             'that a due callback is actually invoked (liveness); the contracts pin the argument of every call that is made, and the handler state after it',
             'the delivery loops (Node::run_on_update_handlers, InternalObserver::run_all): frame obligations only',
